@@ -116,6 +116,17 @@ class Probe:
 
     def drive(self):
         out = {}
+        # first the same line number and the same method name in files with *other* names (names that end with, start
+        # with or contain the configured one): nothing is placed there
+        n0 = self.counts()
+        for other in ('host.py', 'xc11_host.py', 'c11_host.pyx', 'c11_host'):
+            for event, func, line in (('line', 'other_fn', LINE), ('call', METHOD, 3)):
+                gen = lab.frame_at(other, line, func, {'v': 7})
+                self.handler.trace_call(gen.gi_frame, event, None)
+                if event == 'call':
+                    self.handler.trace_call(gen.gi_frame, 'return', None)
+                gen.close()
+        self.foreign = tuple(b - a for a, b in zip(n0, self.counts()))
         for where, event, func, line in (('line', 'line', 'other_fn', LINE), ('method', 'call', METHOD, 3)):
             gen = lab.frame_at(PATH, line, func, {'v': 7})
             n0 = self.counts()
@@ -256,6 +267,9 @@ class C11(Prop):
         except BaseException as e:      # noqa
             out.violate('handler raised %s' % lab.exc_bucket(e), {'row': row})
             return out
+        if any(p.foreign):
+            out.violate('acts in a file with another name (same line number / method name)', {'extra': list(p.foreign)})
+            return out
         check_effects(out, 'tp1', row, seen)
         return out
 
@@ -328,6 +342,9 @@ class C11(Prop):
         except BaseException as e:      # noqa
             out.violate('handler raised after install: %s' % lab.exc_bucket(e))
             return out
+            if any(p.foreign):
+                out.violate('acts in a file with another name (same line number / method name)', {'extra': list(p.foreign)})
+                return out
         errs = sorted(set(lab.LOGS.errors()))
         if any('NoneType' in e or 'AttributeError@trigger_handler' in e for e in errs):
             out.violate('an uninterpretable registration poisons the installed list (handler fails on every event)',
